@@ -568,6 +568,21 @@ theorem xml_text_keeps_valid (s : List Char) : xmlString id s = s.filter (fun c 
 theorem every_text_goes_through_xml_string :
     Gen.junitSetterArms.1 = Gen.junitSetterArms.2 ∧ 0 < Gen.junitSetterArms.2 ∧ Gen.junitDirectSetters = [] := by decide
 
+/-- **which captured text is stored where** (`set_execute_status_props`): system-out holds the captured standard output (or the
+    combined capture) and never standard error, system-err holds the captured standard error and never standard output; a
+    stream that does not exist is replaced by a fixed text (regenerated from junit.rs) — and whatever is stored is XML-valid -/
+theorem stored_streams_attribution (k : OutKind) (o e : List Char) :
+    ((storedStreams k o e).1 = o ∨ (storedStreams k o e).1 = Gen.junitStdoutNotCaptured.toList ∨
+      (storedStreams k o e).1 = Gen.junitProcessFailedToStart.toList) ∧
+    ((storedStreams k o e).2 = e ∨ (storedStreams k o e).2 = Gen.junitStderrNotCaptured.toList ∨
+      (storedStreams k o e).2 = Gen.junitStdoutStderrCombined.toList ∨ (storedStreams k o e).2 = Gen.junitProcessFailedToStart.toList) ∧
+    (k = .split → storedStreams k o e = (o, e)) ∧ (k = .combined → (storedStreams k o e).1 = o) := by
+  cases k <;> simp [storedStreams]
+
+theorem stored_streams_valid (ansi : List Char → List Char) (hsub : ∀ l c, c ∈ ansi l → c ∈ l) (k : OutKind) (o e : List Char) :
+    (∀ c ∈ xmlString ansi (storedStreams k o e).1, XmlChar c) ∧ (∀ c ∈ xmlString ansi (storedStreams k o e).2, XmlChar c) :=
+  ⟨xml_text_valid ansi hsub _, xml_text_valid ansi hsub _⟩
+
 -- not vacuous: output with a C0 control, U+FFFE and U+FFFF, and legal characters around them
 example : xmlString id ['a', '\x01', '\t', '\uFFFE', '<', '\uFFFF', '\uFFFD', '\n'] = ['a', '\t', '<', '\uFFFD', '\n'] := by decide
 
